@@ -11,6 +11,7 @@ import (
 	"sync"
 	"time"
 
+	"k8s.io/apimachinery/pkg/runtime/schema"
 	"k8s.io/apimachinery/pkg/types"
 	ctrl "sigs.k8s.io/controller-runtime"
 	"sigs.k8s.io/controller-runtime/pkg/reconcile"
@@ -98,7 +99,11 @@ func NewSim(out io.Writer) *Sim {
 		StepTimeout: 20 * time.Second,
 		AnnotationActors: map[string]bool{},
 	}
-	s.Proj = &Projector{}
+	s.Proj = &Projector{ClusterScoped: func(group, kind string) bool {
+		ki, ok := s.Store.kinds[schema.GroupKind{Group: group, Kind: kind}]
+		return ok && !ki.Namespaced
+	}}
+	theProjector = s.Proj
 	s.Dyn = NewDynCache(s)
 	return s
 }
